@@ -13,6 +13,29 @@ import os
 import traceback
 
 
+def env_op(kind, case):
+    """environment operations every alphabet may contain (no oracle of their own: they change what later operations see)"""
+    if kind == "env-logging":
+        # the application switched logging on at DEBUG level (the harness otherwise disables logging altogether, so code inside
+        # `if log.isEnabledFor(DEBUG)` / debug f-strings is never evaluated)
+        import logging
+        logging.disable(logging.NOTSET)
+        root = logging.getLogger()
+        root.setLevel(logging.DEBUG)
+        if not root.handlers:
+            root.addHandler(logging.NullHandler())
+        for name in list(logging.root.manager.loggerDict):
+            if name == "bits" or name.startswith("bits."):
+                logging.getLogger(name).setLevel(logging.DEBUG)
+        logging.getLogger("bits").setLevel(logging.DEBUG)
+        return []
+    raise RuntimeError(f"unknown environment operation {kind}")
+
+
+def apply(chk, kind, case):
+    return env_op(kind, case) if kind.startswith("env-") else chk(kind, case)
+
+
 def _run_tree(ops, chk, depth, prefix, out_fd, first_filter=None):
     for i, (kind, case) in enumerate(ops):
         if not prefix and first_filter is not None and not first_filter(i):
@@ -22,7 +45,7 @@ def _run_tree(ops, chk, depth, prefix, out_fd, first_filter=None):
             code = 0
             try:
                 try:
-                    viol = [list(v) for v in chk(kind, case)]
+                    viol = [list(v) for v in apply(chk, kind, case)]
                     rec = {"seq": prefix + [i], "viol": viol}
                 except BaseException:
                     rec = {"seq": prefix + [i], "error": traceback.format_exc()[-1500:]}
@@ -77,7 +100,7 @@ def replay(chk, case):
     """run the recorded sequence in this (fresh) process; returns the violations of the last operation"""
     out = []
     for n, (kind, c) in enumerate(case["seq"]):
-        v = chk(kind, c)
+        v = apply(chk, kind, c)
         if n == len(case["seq"]) - 1:
             out = [(k + "/history-dependent", d) for k, d in v]
     return out
